@@ -21,6 +21,7 @@ import (
 	"io/fs"
 	"os"
 	"path"
+	"sort"
 	"strings"
 
 	"github.com/goplus/gogen"
@@ -278,7 +279,10 @@ func LoadDir(dir string, conf *Config, genTestPkg bool, promptGenGo ...bool) (ou
 		LookupClass:  mod.LookupClass,
 	}
 
-	for name, pkg := range pkgs {
+	// visit the packages in a fixed order (the order of a map iteration
+	// changes from run to run, and so would the reported error)
+	for _, name := range sortedPkgNames(pkgs) {
+		pkg := pkgs[name]
 		if strings.HasSuffix(name, "_test") {
 			if pkgTest != nil {
 				return nil, nil, ErrMultiTestPackges
@@ -350,6 +354,15 @@ func relativeBaseOf(mod *xgomod.Module) string {
 }
 
 // -----------------------------------------------------------------------------
+
+func sortedPkgNames(pkgs map[string]*ast.Package) []string {
+	names := make([]string, 0, len(pkgs))
+	for name := range pkgs {
+		names = append(names, name)
+	}
+	sort.Strings(names)
+	return names
+}
 
 // LoadFiles loads a XGo package from specified files.
 func LoadFiles(dir string, files []string, conf *Config) (out *gogen.Package, err error) {
